@@ -18,7 +18,11 @@ def harness(tier, seed):
     templates = [Instance.from_resource(n) for n in ("a01", "a04", "a10", "beng01", "cl01_020_01")]
     small = [Instance("s1", 10, 8, [[3, 2, 4], [5, 4, 2], [2, 2, 3]]), Instance("s2", 6, 6, [[3, 3, 5], [2, 6, 1]]),
              Instance("s3", 5, 9, [[1, 1, 12], [5, 3, 2]]), Instance("s4", 7, 3, [[7, 3, 2], [1, 1, 1]])]
-    pool = small + (templates if tier == "thorough" else templates[:2])
+    # templates whose lower bound exceeds the area bound (the decoder must keep the *lower bound*, not only the area)
+    tight = [Instance.from_resource(n) for n in ("a02", "cl05_020_01")]
+    tight = [t for t in tight if t.lower_bound_bins * t.bin_width * t.bin_height - t.total_item_area
+             >= t.bin_width * t.bin_height] or tight
+    pool = small + tight + (templates if tier == "thorough" else templates[:2])
     reps = 12 if tier == "quick" else 150
     eps = np.nextafter(0.0, 1.0)
     specials = [-1.0, 1.0, 0.0, eps, -eps, np.nextafter(1.0, 0.0), np.nextafter(-1.0, 0.0), 0.5, -0.5]
@@ -36,7 +40,12 @@ def harness(tier, seed):
             dim = dec.get_x_dim(slack)
             for r in range(reps):
                 mode = r % 4
-                if mode == 0:
+                if mode == 0 and slack > 0 and r % 8 == 0:
+                    # base variables 0, slack pairs with maximal cuts
+                    x = np.zeros(dim)
+                    nb_ = 2 * (space.n_items - space.min_bins)
+                    x[nb_:] = [1.0, 0.25, -0.75, np.nextafter(1.0, 0.0)][: dim - nb_] + [0.5] * max(0, dim - nb_ - 4)
+                elif mode == 0:
                     x = np.full(dim, specials[(r // 4) % len(specials)])
                 elif mode == 1:
                     x = np.array([rng.choice(specials) for _ in range(dim)])
